@@ -28,9 +28,12 @@
    UnsubRead(th)     | l.116  handler := State(hkey, 0)
    UnsubClear(th)    | l.117  State(hkey, -handler)
    UnsubRPC(th)      | l.119  UnregisterEvent call sent (an error is only logged)
-   ServerUnreg       | signal.go l.154-184: removeSignalUser (same connection only),
-                     |   then the reply = the acknowledgement of the removal
-   LocalCancel(th)   | l.124  cancel(): close(abort) -> RemoveHandler, close(events)
+   ServerUnreg       | signal.go l.154-184: removeSignalUser (same connection only)
+   ServerReply       | SendReply/SendError of the request just processed; for an
+                     |   unregistration this is the acknowledgement of the removal
+   Abort(th)         | l.124  cancel(): close(abort); the cancel function returns
+   CloseSub(th)      | client.go l.172-175 forwarding goroutine: RemoveHandler,
+                     |   close(events)
    Forward(th)       | client.go l.165-171 forwarding goroutine: queue -> channel
    EmitCall          | the service calls Signal<X>(payload) / Update<Prop>
    EmitStart         | signal.go l.191-197 UpdateSignal: snapshot under RLock, in
@@ -63,6 +66,7 @@ CONSTANTS
 T1 == {"t1"}
 T2 == {"t1", "t2"}
 T3 == {"t1", "t2", "t3"}
+T13 == {"t1", "t3"}
 OneConn   == [t \in T3 |-> "c1"]                               \* same proxy / same connection
 TwoConn   == [t \in T3 |-> IF t = "t3" THEN "c2" ELSE "c1"]    \* t3 on another connection
 SameSig   == [t \in T3 |-> "A"]
@@ -77,22 +81,44 @@ EmitAAB == <<"A", "A", "B">>
 EmitAB  == <<"A", "B">>
 EmitABA == <<"A", "B", "A">>
 
+\* the fixed cast of the conformance harness (harness/cmd/signal/c13.go):
+\*   t1, t2: connection c1, signal A (one bus.Client: shared reference count)
+\*   t3    : connection c1, signal B        t4: connection c2, signal A
+\*   t5    : connection c2, signal B
+Cast     == {"t1", "t2", "t3", "t4", "t5"}
+CastConn == [t \in Cast |-> IF t \in {"t4", "t5"} THEN "c2" ELSE "c1"]
+CastSig  == [t \in Cast |-> IF t \in {"t3", "t5"} THEN "B" ELSE "A"]
+Cast12   == {"t1", "t2"}
+Cast124  == {"t1", "t2", "t4"}
+Cast134  == {"t1", "t3", "t4"}
+Cast1234 == {"t1", "t2", "t3", "t4"}
+CR1  == [t \in Cast |-> 1]
+CR2  == [t \in Cast |-> 2]
+CR21 == [t \in Cast |-> IF t = "t1" THEN 2 ELSE 1]
+CR99 == [t \in Cast |-> 99]
+NoEmit == <<>>
+
 Keys == Conns \X Signals
 Key(th) == <<ConnOf[th], SigOf[th]>>
 NoThread == ""
-Pow2(n) == IF n = 0 THEN 1 ELSE IF n = 1 THEN 2 ELSE IF n = 2 THEN 4 ELSE IF n = 3 THEN 8
-           ELSE IF n = 4 THEN 16 ELSE IF n = 5 THEN 32 ELSE IF n = 6 THEN 64
-           ELSE IF n = 7 THEN 128 ELSE IF n = 8 THEN 256 ELSE 512
+\* handler ids (rand.Int() in the code): powers of 3, so that the sums and
+\* differences State() builds from them (coefficients -1, 0, 1) never collide
+\* with each other or with an id - as for random 63-bit numbers
+RECURSIVE Pow3(_)
+Pow3(n) == IF n = 0 THEN 1 ELSE 3 * Pow3(n - 1)
+Pow2(n) == Pow3(n)
 
 VARIABLES
   \* server
   regs,        \* sequence of [u, c, sig]: signalHandler.signals (the order of the slice
                \*   matters: removal moves the last entry into the hole, sends follow it)
   mbox,        \* FIFO of register/unregister requests to the object (its mailbox)
+  srep,        \* the reply the mailbox goroutine still has to send ([c = ""] when none)
   em,          \* emitter [pc, k, pending]: pending = snapshot entries still to be sent
   called,      \* number of emit calls made
   started,     \* number of snapshots taken
   completed,   \* number of emit calls returned
+  emitted,     \* the signals of the emit calls made so far (emitted[k] = signal of event k)
   \* connections (server -> client)
   wire,        \* [Conns -> Seq(message)]
   \* proxy state of a connection's bus.Client
@@ -112,17 +138,20 @@ VARIABLES
   unregAcked,  \* set of <<c, u>>: the removal of u was acknowledged on connection c
   lateSend     \* an event for an acknowledged removal was sent afterwards
 
-srv  == <<regs, mbox>>
-emv  == <<em, called, started, completed>>
+srv  == <<regs, mbox, srep>>
+emv  == <<em, called, started, completed, emitted>>
 prox == <<cnt, hk, lock>>
 thr  == <<pc, h, round, nextU>>
 cli  == <<lh, q, got, closed>>
 obs  == <<ackAt, cancelled, cancelAt, unregAcked, lateSend>>
 vars == <<srv, emv, wire, prox, thr, cli, obs>>
 
+NoReply == [c |-> "", th |-> "", ok |-> TRUE, u |-> 0, unreg |-> FALSE]
+
 Init ==
-  /\ regs = <<>> /\ mbox = <<>> /\ em = [pc |-> "idle", k |-> 0, pending |-> <<>>]
-  /\ called = 0 /\ started = 0 /\ completed = 0
+  /\ regs = <<>> /\ mbox = <<>> /\ srep = NoReply
+  /\ em = [pc |-> "idle", k |-> 0, pending |-> <<>>]
+  /\ called = 0 /\ started = 0 /\ completed = 0 /\ emitted = <<>>
   /\ wire = [c \in Conns |-> <<>>]
   /\ cnt = [x \in Keys |-> 0] /\ hk = [x \in Keys |-> 0] /\ lock = [x \in Keys |-> NoThread]
   /\ pc = [t \in Threads |-> "idle"] /\ h = [t \in Threads |-> 0] /\ round = [t \in Threads |-> 1]
@@ -172,7 +201,7 @@ SubRPC(th) ==
   /\ pc[th] = "rpc"
   /\ mbox' = Append(mbox, [t |-> "reg", c |-> ConnOf[th], sig |-> SigOf[th], u |-> h[th], th |-> th])
   /\ Goto(th, "waitreg")
-  /\ UNCHANGED <<regs, emv, wire, prox, h, round, nextU, cli, obs>>
+  /\ UNCHANGED <<regs, srep, emv, wire, prox, h, round, nextU, cli, obs>>
 
 \* SubscribeID returns to the user
 Ack(th) ==
@@ -192,49 +221,60 @@ SwapRemove(seq, i) == LET n == Len(seq) IN
                       IF i = n THEN SubSeq(seq, 1, n - 1)
                       ELSE [j \in 1..(n - 1) |-> IF j = i THEN seq[n] ELSE seq[j]]
 
+\* addSignalUser under signalsMutex; the reply is sent afterwards
 ServerReg ==
-  /\ mbox # <<>> /\ Head(mbox).t = "reg"
+  /\ srep.c = "" /\ mbox # <<>> /\ Head(mbox).t = "reg"
   /\ LET m == Head(mbox) IN
        IF \E i \in 1..Len(regs) : regs[i].u = m.u
        THEN /\ UNCHANGED regs                                   \* "user already exists"
-            /\ wire' = [wire EXCEPT ![m.c] = Append(@, Reply(m.th, FALSE))]
+            /\ srep' = [c |-> m.c, th |-> m.th, ok |-> FALSE, u |-> m.u, unreg |-> FALSE]
        ELSE /\ regs' = Append(regs, [u |-> m.u, c |-> m.c, sig |-> m.sig])
-            /\ wire' = [wire EXCEPT ![m.c] = Append(@, Reply(m.th, TRUE))]
+            /\ srep' = [c |-> m.c, th |-> m.th, ok |-> TRUE, u |-> m.u, unreg |-> FALSE]
   /\ mbox' = Tail(mbox)
-  /\ UNCHANGED <<emv, prox, thr, cli, obs>>
+  /\ UNCHANGED <<emv, wire, prox, thr, cli, obs>>
 
 InSeq(x, seq) == \E i \in 1..Len(seq) : seq[i] = x
+\* removeSignalUser under signalsMutex; the reply (= the acknowledgement) afterwards
 ServerUnreg ==
-  /\ mbox # <<>> /\ Head(mbox).t = "unreg"
+  /\ srep.c = "" /\ mbox # <<>> /\ Head(mbox).t = "unreg"
   /\ LET m == Head(mbox)
          hit == {i \in 1..Len(regs) : regs[i].u = m.u /\ regs[i].c = m.c}
      IN IF hit # {}
         THEN LET i == CHOOSE j \in hit : TRUE IN
-             \* a conforming server does not acknowledge while a send for it is pending
-             /\ (Dev_SendAfterSnapshot \/ ~InSeq(regs[i], em.pending))
              /\ regs' = SwapRemove(regs, i)
-             /\ unregAcked' = unregAcked \cup {<<m.c, m.u>>}
-             /\ wire' = [wire EXCEPT ![m.c] = Append(@, Reply(m.th, TRUE))]
-        ELSE /\ UNCHANGED <<regs, unregAcked>>                 \* "unknown user id"
-             /\ wire' = [wire EXCEPT ![m.c] = Append(@, Reply(m.th, FALSE))]
+             /\ srep' = [c |-> m.c, th |-> m.th, ok |-> TRUE, u |-> m.u, unreg |-> TRUE]
+        ELSE /\ UNCHANGED regs                                 \* "unknown user id"
+             /\ srep' = [c |-> m.c, th |-> m.th, ok |-> FALSE, u |-> m.u, unreg |-> TRUE]
   /\ mbox' = Tail(mbox)
-  /\ UNCHANGED <<emv, prox, thr, cli, ackAt, cancelled, cancelAt, lateSend>>
+  /\ UNCHANGED <<emv, wire, prox, thr, cli, obs>>
+
+\* SendReply / SendError of the request just processed
+ServerReply ==
+  /\ srep.c # ""
+  \* a conforming server does not acknowledge a removal while a send for it is pending
+  /\ (srep.unreg /\ srep.ok /\ ~Dev_SendAfterSnapshot)
+        => ~\E i \in 1..Len(em.pending) : em.pending[i].u = srep.u /\ em.pending[i].c = srep.c
+  /\ wire' = [wire EXCEPT ![srep.c] = Append(@, Reply(srep.th, srep.ok))]
+  /\ unregAcked' = IF srep.unreg /\ srep.ok THEN unregAcked \cup {<<srep.c, srep.u>>} ELSE unregAcked
+  /\ srep' = NoReply
+  /\ UNCHANGED <<regs, mbox, emv, prox, thr, cli, ackAt, cancelled, cancelAt, lateSend>>
 
 \* ---------------------------------------------------------------------------
 \* emitter
 \* ---------------------------------------------------------------------------
-EmitCall ==
-  /\ em.pc = "idle" /\ called < Len(EmitSeq)
-  /\ called' = called + 1
+EmitSig(sig) ==
+  /\ em.pc = "idle"
+  /\ called' = called + 1 /\ emitted' = Append(emitted, sig)
   /\ em' = [pc |-> "called", k |-> called + 1, pending |-> <<>>]
   /\ UNCHANGED <<srv, started, completed, wire, prox, thr, cli, obs>>
+EmitCall == called < Len(EmitSeq) /\ EmitSig(EmitSeq[called + 1])
 
 EmitStart ==
   /\ em.pc = "called"
   /\ started' = started + 1
   /\ em' = [em EXCEPT !.pc = "sending",
-                      !.pending = SelectSeq(regs, LAMBDA r : r.sig = EmitSeq[em.k])]
-  /\ UNCHANGED <<srv, called, completed, wire, prox, thr, cli, obs>>
+                      !.pending = SelectSeq(regs, LAMBDA r : r.sig = emitted[em.k])]
+  /\ UNCHANGED <<srv, called, completed, emitted, wire, prox, thr, cli, obs>>
 
 SendTo ==
   /\ em.pc = "sending" /\ em.pending # <<>>
@@ -242,13 +282,13 @@ SendTo ==
        /\ wire' = [wire EXCEPT ![r.c] = Append(@, EventMsg(r.sig, em.k, r.u))]
        /\ lateSend' = (lateSend \/ <<r.c, r.u>> \in unregAcked)
   /\ em' = [em EXCEPT !.pending = Tail(@)]
-  /\ UNCHANGED <<srv, called, started, completed, prox, thr, cli, ackAt, cancelled, cancelAt, unregAcked>>
+  /\ UNCHANGED <<srv, called, started, completed, emitted, prox, thr, cli, ackAt, cancelled, cancelAt, unregAcked>>
 
 EmitEnd ==
   /\ em.pc = "sending" /\ em.pending = <<>>
   /\ em' = [em EXCEPT !.pc = "idle"]
   /\ completed' = completed + 1
-  /\ UNCHANGED <<srv, called, started, wire, prox, thr, cli, obs>>
+  /\ UNCHANGED <<srv, called, started, emitted, wire, prox, thr, cli, obs>>
 
 \* ---------------------------------------------------------------------------
 \* client: dispatch of connection c, forwarding goroutines
@@ -311,10 +351,19 @@ UnsubRPC(th) ==
   /\ pc[th] = "unrpc"
   /\ mbox' = Append(mbox, [t |-> "unreg", c |-> ConnOf[th], sig |-> SigOf[th], u |-> h[th], th |-> th])
   /\ Goto(th, "waitunreg")
-  /\ UNCHANGED <<regs, emv, wire, prox, h, round, nextU, cli, obs>>
+  /\ UNCHANGED <<regs, srep, emv, wire, prox, h, round, nextU, cli, obs>>
 
-LocalCancel(th) ==
+\* l.124 cancel(): close(abort); the call returns to the user ...
+Abort(th) ==
   /\ pc[th] = "lcancel"
+  /\ Goto(th, "closing")
+  /\ UNCHANGED <<srv, emv, wire, prox, h, round, nextU, cli, obs>>
+
+\* ... and the forwarding goroutine, when its select takes the abort branch, removes
+\* the handler and closes the channel (client.go l.172-175); until then it may still
+\* forward what is queued
+CloseSub(th) ==
+  /\ pc[th] = "closing"
   /\ lh' = [lh EXCEPT ![th] = FALSE] /\ closed' = [closed EXCEPT ![th] = TRUE]
   /\ q' = [q EXCEPT ![th] = <<>>]
   /\ Goto(th, "done")
@@ -328,11 +377,11 @@ Again(th) ==
 
 ThreadStep(th) == \/ SubLocal(th) \/ SubInc(th) \/ SubKey(th) \/ SubRPC(th) \/ Ack(th) \/ CancelReq(th)
                   \/ UnsubDec(th) \/ UnsubRead(th) \/ UnsubClear(th) \/ UnsubRPC(th)
-                  \/ LocalCancel(th) \/ Again(th)
+                  \/ Abort(th) \/ CloseSub(th) \/ Again(th)
 Internal == \/ \E c \in Conns : Deliver(c)
             \/ \E th \in Threads : Forward(th)
 Next == \/ \E th \in Threads : ThreadStep(th)
-        \/ ServerReg \/ ServerUnreg
+        \/ ServerReg \/ ServerUnreg \/ ServerReply
         \/ EmitCall \/ EmitStart \/ SendTo \/ EmitEnd
         \/ Internal
 
@@ -347,7 +396,7 @@ EvK(seq) == [i \in 1..Len(seq) |-> seq[i].k]
 \* acknowledgement and returned before its request to cancel
 Window(th) == IF ackAt[th] < 0 THEN {}
               ELSE {k \in (ackAt[th] + 1)..(IF cancelled[th] THEN cancelAt[th] ELSE called) :
-                      EmitSeq[k] = SigOf[th]}
+                      emitted[k] = SigOf[th]}
 InWin(th) == SelectSeq(EvK(got[th]), LAMBDA k : k \in Window(th))
 Sorted(S) == LET RECURSIVE srt(_)
                  srt(X) == IF X = {} THEN <<>>
@@ -369,13 +418,13 @@ InWindowExactlyOnceInOrder == NoDuplicate /\ InOrderNoGap /\ Complete
 \* only the subscribed signal, and with the emitted payload (k identifies it)
 NoForeignSignal == \A th \in Threads : \A i \in 1..Len(got[th]) :
                       got[th][i].sig = SigOf[th] /\ got[th][i].k \in 1..called
-                      /\ EmitSeq[got[th][i].k] = SigOf[th]
+                      /\ emitted[got[th][i].k] = SigOf[th]
 \* the channel is closed once the subscriber has cancelled
 ClosedAfterCancel == \A th \in Threads : pc[th] = "done" => (closed[th] /\ ~lh[th])
 NothingAfterUnregisterAck == ~lateSend
 \* one subscriber leaving does not disturb the others: Complete/InOrderNoGap of the
 \* others; structurally: the registration stays while somebody listens
-Settled(x) == /\ mbox = <<>> /\ wire[x[1]] = <<>>
+Settled(x) == /\ mbox = <<>> /\ srep.c = "" /\ wire[x[1]] = <<>>
               /\ \A t \in Threads : Key(t) = x => pc[t] \in {"idle", "acked", "done", "failed"}
 OthersUndisturbed ==
   \A th \in Threads : (pc[th] = "acked" /\ Settled(Key(th)))
@@ -384,12 +433,24 @@ OthersUndisturbed ==
 AtMostOneRegistration ==
   \A x \in Keys : Cardinality({i \in 1..Len(regs) : <<regs[i].c, regs[i].sig>> = x}) <= 1
 AllDone == \A th \in Threads : pc[th] = "done" /\ round[th] = Rounds[th]
-NoLeak == (AllDone /\ mbox = <<>>) => regs = <<>>
+NoLeak == (AllDone /\ mbox = <<>> /\ srep.c = "") => regs = <<>>
 \* liveness (FairSpec): a cancelled subscription gets closed
-EventuallyClosed == \A th \in Threads : (cancelled[th] ~> closed[th])
+EventuallyClosed == \A th \in Threads : (cancelled[th] ~> (closed[th] \/ ~cancelled[th]))
+
+\* the property invariants violated in the current state (names), for the behaviour
+\* export and the trace validation
+Violated == {n \in {"NoDuplicate", "InOrderNoGap", "Complete", "NoForeignSignal", "ClosedAfterCancel",
+                     "NothingAfterUnregisterAck", "OthersUndisturbed"} :
+               CASE n = "NoDuplicate" -> ~NoDuplicate
+                 [] n = "InOrderNoGap" -> ~InOrderNoGap
+                 [] n = "Complete" -> ~Complete
+                 [] n = "NoForeignSignal" -> ~NoForeignSignal
+                 [] n = "ClosedAfterCancel" -> ~ClosedAfterCancel
+                 [] n = "NothingAfterUnregisterAck" -> ~NothingAfterUnregisterAck
+                 [] n = "OthersUndisturbed" -> ~OthersUndisturbed}
 
 PCs == {"idle", "inc", "key", "rpc", "waitreg", "ackready", "acked", "failed", "dec", "read",
-        "clear", "unrpc", "waitunreg", "lcancel", "done"}
+        "clear", "unrpc", "waitunreg", "lcancel", "closing", "done"}
 TypeOK == /\ pc \in [Threads -> PCs]
           /\ \A x \in Keys : cnt[x] \in Int /\ hk[x] \in Int
           /\ called \in 0..Len(EmitSeq) /\ started <= called /\ completed <= started
